@@ -55,4 +55,11 @@ PROPS = {
  "C10": dict(cfgs=quick8,
    scope=lambda t: "accuracy on the COMPLETE stated domain (all 411,775 raw x with |x| <= pi); pole, oddness and period on every residue of [0,phi) x a k-set reaching every binade up to 2^62, plus S(w,r)",
    assumptions=COMMON_ASSUMPTIONS + ["at a pole tan(x) and tan(-x) must both be NaN; the sign of the NaN sentinel is not compared (DESIGN section 7)"]),
+ "C11": dict(cfgs=quick8,
+   scope=lambda t: "atan on every raw x of a dense prefix [0, 2^26) (quick) / [0, 2^34) (thorough) of the domain plus S(w,r) up to 2^47, negatives through exact oddness, running-maximum monotonicity; atan2 on P^2 (S-shaped, |.| < 2^47) and a scaled dense grid",
+   assumptions=COMMON_ASSUMPTIONS + ["glibc double atan/atan2 is used as a fast reference with a 1e-9 guard band; anything inside the band is decided with libquadmath",
+       "atan arguments in [2^34, 2^47) and atan2 pairs are covered on the S-shaped subset only"]),
+ "C12": dict(cfgs=quick8,
+   scope=lambda t: "the COMPLETE domain [-1,1] (131,073 raw values) under both square-root back-ends in every configuration; NaN clause on S(w,r) u +-NaN u a dense window beyond +-1",
+   assumptions=COMMON_ASSUMPTIONS),
 }
